@@ -84,6 +84,33 @@ def _run_deep(case, info):
     return info
 
 
+def _as_nibbles(p):
+    from trie.typing import Nibbles
+
+    return Nibbles(p)
+
+
+def _as_array(p):
+    import array
+
+    return array.array("B", p)
+
+
+def _as_deque(p):
+    import collections
+
+    return collections.deque(p)
+
+
+def _as_userlist(p):
+    import collections
+
+    return collections.UserList(p)
+
+
+_CARRIERS = [list, _as_nibbles, _as_deque, _as_array, _as_userlist, tuple]
+
+
 def _tt(x):
     return tuple(int(i) for i in x)
 
@@ -277,6 +304,10 @@ def _observe(t, db, model, case, info):
         loc = ref.locate(path)
         got = impl("traverse-only-partial-errors", t.traverse, path, allowed=(TraversedPartialPath,))
         _check_outcome("traverse", got, loc, path, model_nibs, info)
+        # the same path as another Sequence[int] (list, deque, array, UserList, Nibbles)
+        carrier = _CARRIERS[(len(path) + case["pick"]) % len(_CARRIERS)]
+        got_c = impl("traverse-only-partial-errors", t.traverse, carrier(path), allowed=(TraversedPartialPath,))
+        _check_outcome(f"traverse({carrier.__name__})", got_c, loc, path, model_nibs, info)
         # every split prefix + segment
         if len(path) <= 8:
             cuts = range(len(path) + 1)
